@@ -11,7 +11,7 @@ PROPS = {
     'C03': {
         'units': [('contracts/S_parse.vc', None, 'S_parse'), ('contracts/S_tok.vc', None, 'S_tok'), ('contracts/W_writer.vc', None, 'W_writer'), ('contracts/R_tokrt.vc', None, 'R_tokrt')],
         'replay': 'c03',
-        'replay_scope': '30000 pseudo-random fully segmented sentences (1-5 characters over {a, space, /, backslash, multi-byte}, 0-3 tag slots with absent / delimiter-bearing / multi-byte tags): write -> from_tokenized -> compare text, labels, per-token tags up to trailing absent; plus write-after-parse idempotence on every string of length <= 6 over the format alphabet that the parser accepts',
+        'replay_scope': '30000 pseudo-random fully segmented sentences (1-5 characters over {a, space, /, backslash, multi-byte}, 0-3 tag slots with absent / delimiter-bearing / multi-byte tags): write -> from_tokenized -> compare text, labels, per-token tags up to trailing absent; plus write-after-parse idempotence on every string of length <= 6 over the format alphabet that the parser accepts; since round 11 the alphabet also holds CR, LF and TAB and two tags end in CR / are LF',
         'not_covered': [
             'tags are compared per TOKEN (the row of the token\'s last character, which is what Token::tags returns and what the format can carry); tag slots on characters that do not end a token are not written and come back absent',
             'the proviso of the statement is a precondition: tags present in the table are non-empty and NUL-free, the sentence has no unknown boundary (an empty tag is written as an empty field and read back as absent)',
@@ -22,7 +22,7 @@ PROPS = {
     'C04': {
         'units': [('contracts/S_parse.vc', None, 'S_parse'), ('contracts/W_pawriter.vc', None, 'W_pawriter'), ('contracts/R_part.vc', None, 'R_part')],
         'replay': 'c04',
-        'replay_scope': '30000 pseudo-random sentences (1-5 characters over {a, b, space, /, backslash, -, |, multi-byte}, labels from {boundary, not a boundary, unknown}, 0-3 tag slots on EVERY character with absent / delimiter-bearing / multi-byte tags): write_partial_annotation_text -> from_partial_annotation -> compare text, labels, per-character tags up to trailing absent',
+        'replay_scope': '30000 pseudo-random sentences (1-5 characters over {a, b, space, /, backslash, -, |, multi-byte}, labels from {boundary, not a boundary, unknown}, 0-3 tag slots on EVERY character with absent / delimiter-bearing / multi-byte tags): write_partial_annotation_text -> from_partial_annotation -> compare text, labels, per-character tags up to trailing absent; since round 11 the alphabet also holds CR and LF and one tag ends in CR',
         'not_covered': [
             'the proviso is a precondition: tags present in the table are non-empty (an empty tag is written as an empty field and read back as absent); NUL inside a tag is not excluded by the proof (the parser accepts it)',
             'update_partial_annotation carries the same contract as from_partial_annotation (proved in S_parse); the composition is stated with from_partial_annotation',
@@ -32,7 +32,7 @@ PROPS = {
     'C05': {
         'units': [('contracts/S_raw.vc', None, 'S_raw'), ('contracts/S_parse.vc', None, 'S_parse')],
         'replay': 'c05',
-        'replay_scope': 'every pair (first update, optional reset_tags, second update) over 3 formats x 40 small inputs (escapes, NUL, delimiters, multi-byte); compared with the fresh constructor; writers/iterators/accessors exercised',
+        'replay_scope': 'every pair (first update, optional reset_tags, second update) over 3 formats x 40 small inputs (escapes, NUL, delimiters, multi-byte); compared with the fresh constructor; writers/iterators/accessors exercised; since round 11: 13 more inputs (ASCII around the letter ranges, class-edge characters, trailing CR) and the character types of every parsed sentence compared with the reference classification',
         'not_covered': [
             'that the parsed raw text / labels / tags equal the annotated input (content equality) is C03/C04 and is not claimed; proved here: totality, termination, and that every output is consistent with the parsed text (types, position maps, lengths, tag-slot count)',
             '"every accessor, writer and iterator works": accessors and the token iterator are proved here / in S_tok, the two writers in units W_writer (C02/C03) and W_pawriter (C04)',
@@ -54,7 +54,7 @@ PROPS = {
         'units': [('contracts/M_model.vc', None, 'M_model')],
         'functions': ['replace_dictionary', 'dictionary', 'tag_models', 'new', 'get_word', 'get_weights', 'get_comment', 'chars_count', 'lemma_chars_le_bytes'],
         'replay': ['c19', 'c01'],
-        'replay_scope': '10 words x 8 weight counts for the record rule; 4 replacement dictionaries on resources/model.bin with byte-for-byte restore check; score-difference clause on 150 seeded models against the brute-force linear model; the manipulate_model binary built from /repo: --dump-dict then --replace-dict with the unmodified dump on 16 dictionaries (shipped, empty, awkward words / comments with commas, quotes, leading / trailing / inner spaces, tab, newline, ZWJ emoji, a leading hash sign) reproduces the model byte for byte, and a record with a wrong weight count is rejected',
+        'replay_scope': '10 words x 8 weight counts for the record rule; 4 replacement dictionaries on resources/model.bin with byte-for-byte restore check; score-difference clause on 150 seeded models against the brute-force linear model; the manipulate_model binary built from /repo: --dump-dict then --replace-dict with the unmodified dump on 16 dictionaries (shipped, empty, awkward words / comments with commas, quotes, leading / trailing / inner spaces, tab, newline, ZWJ emoji, a leading hash sign) reproduces the model byte for byte, and a record with a wrong weight count is rejected; tool sweep since round 11: the dump of each dictionary is also put into ANOTHER model (two-word dictionary) and must give the model holding the dumped dictionary (an empty dump empties it)',
         'not_covered': [
             'the score-difference clause is the composition of this frame with the C01 chain (dictionary entries enter the score only through contrib terms); the composition itself is not a discharged obligation',
         ],
@@ -71,7 +71,7 @@ PROPS = {
     'C16': {
         'units': [('contracts/N_fullwidth.vc', None, 'N_fullwidth')],
         'replay': ['c16', 'c16t'],
-        'replay_scope': 'c16: all 1,112,064 Unicode scalar values (exhaustive) + positional independence on 7 mixed strings; c16t (BOUNDED stand-in for the Tantivy clause, own replay crate): 8 models (resources/model.bin + seeded random ones; 40 thorough) x 34 texts (empty, whitespace only, CR/LF, half-width, combining marks, ZWJ emoji, texts without ASCII that contain non-ASCII keys of the normaliser, seeded random; 80 thorough) x 8 wsconst strings x both constructors (new, and deserialize_unchecked from the bytes of a serialised predictor): tokens tile the original text from 0 to its length, offsets on character boundaries, token text = original substring, consecutive positions, breaks exactly where normalise + predict + line-break filter + configured filters break',
+        'replay_scope': 'c16: all 1,112,064 Unicode scalar values (exhaustive) + positional independence on 7 mixed strings; c16t (BOUNDED stand-in for the Tantivy clause, own replay crate): 8 models (resources/model.bin + seeded random ones; 40 thorough) x 34 texts (empty, whitespace only, CR/LF, half-width, combining marks, ZWJ emoji, texts without ASCII that contain non-ASCII keys of the normaliser, seeded random; 80 thorough) x 8 wsconst strings x both constructors (new, and deserialize_unchecked from the bytes of a serialised predictor): tokens tile the original text from 0 to its length, offsets on character boundaries, token text = original substring, consecutive positions, breaks exactly where normalise + predict + line-break filter + configured filters break; since round 11 every ordered pair of interesting characters (every character the table changes, its image, all kana, combining and half-width sound marks, joiners, CR, LF): the image of the pair is the character-wise image',
         'not_covered': [
             'the Tantivy token stream (tantivy crate, Arc<dyn SentenceFilter>) is not under contract: its clause is decided by the bounded sweep c16t only (labelled bounded); a text containing NUL makes the adapter panic (Sentence::from_raw rejects it) - not part of the sweep, the statement lists empty / multi-byte / CR-LF texts',
         ],
@@ -88,7 +88,7 @@ PROPS = {
     'C01': {
         'units': [('contracts/P_pred.vc', 'realpred', 'P_pred'), ('contracts/T_cache.vc', None, 'T_cache'), ('contracts/C_scorers.vc', None, 'C_scorers')],
         'replay': 'c01',
-        'replay_scope': 'seeded random well-formed models (suffix-related n-grams, words, windows 1..4, weight vectors shorter and longer than 8; every 5th seed a degenerate shape: no character n-grams, no type n-grams, no dictionary, or neither kind of n-gram; every 6th seed weights near the 16-bit limits, every 6th seed vectors longer than 8 that are zero except for their last / first entries; now and then a window of 127, 128, 200 or 255) x 6 texts of 1..12 mixed-width characters + 2 texts assembled from the model\'s own n-grams, words, tag tokens and tag n-grams; texts of even length are predicted twice in a row on the same sentence; every boundary score compared with the brute-force linear model; plain and tagging scorers',
+        'replay_scope': 'seeded random well-formed models (suffix-related n-grams, words, windows 1..4, weight vectors shorter and longer than 8; every 5th seed a degenerate shape: no character n-grams, no type n-grams, no dictionary, or neither kind of n-gram; every 6th seed weights near the 16-bit limits, every 6th seed vectors longer than 8 that are zero except for their last / first entries; now and then a window of 127, 128, 200 or 255) x 6 texts of 1..12 mixed-width characters + 2 texts assembled from the model\'s own n-grams, words, tag tokens and tag n-grams; texts of even length are predicted twice in a row on the same sentence; every boundary score compared with the brute-force linear model; plain and tagging scorers; since round 10/11: entries whose weights cancel their own suffix entry, tag weight lists in any offset order, and in every fifth text one code point from the edges of the character classes',
         'not_covered': [
             'ALL scorer bodies are verified in unit C_scorers (CharScorerBoundary, TypeScorerBoundary, both *BoundaryTag add_scores, both add_tag_scores, the enum dispatch CharScorer/TypeScorer::add_scores; the cached scorer in T_cache) against ASSUMED contracts of daachorse::find_overlapping_no_suffix_iter (yields a fixed match sequence; each match is an occurrence of a known pattern ending inside the input; end() is the byte offset of a character end), of the SplitMix hash-map lookup, and an ASSUMED scorer_wf (what new() builds: one entry per pattern, Fixed entries inside the 7-slot padding); unit P_pred uses exactly the enum-level contracts proved there (shared contract text) with char_scores/type_scores left abstract',
             'Predictor::predict therefore requires pred_scores_ok (scorer tables well-formed; no i32 overflow for this text) and sentences shorter than 2^31 characters: stated ranges, not proved of Predictor::new',
@@ -111,7 +111,7 @@ PROPS = {
         'units': [('contracts/X_train.vc', None, 'X_train')],
         'functions': ['translate_feature', 'expand_word', 'lemma_slot_meets_predictor', 'lemma_word_slots', 'chars_count', 'gen_features'],
         'replay': 'c09',
-        'replay_scope': 'Trainer::new/add_example/train on 9 small corpora (plain, tagged, multi-candidate tags, no word boundary, only word boundaries, empty, one-character sentences, a larger one for dictionary features, one mixing partially and fully annotated sentences), all eight solvers in turn, also with a dictionary that repeats words; x every (char window, char n-gram, type window, type n-gram) in 1..3 plus 8 configurations with sizes of 0 (window 0 of one or both kinds, n-gram size 0) (1..5 thorough) x 3 dictionary settings: (through the verification hook VERIF_LEARNED) every boundary of 7-10 texts is scored by the trained model exactly as the learned quantised bias plus the learned quantised weight of each feature a reference extractor written from the statement finds for that boundary; every stored n-gram vector has the length of its own window, dictionary vectors have word length + 1 entries and the words of a length bucket share (left, inside, right), weights are 16-bit, the model re-reads and is usable',
+        'replay_scope': 'Trainer::new/add_example/train on 9 small corpora (plain, tagged, multi-candidate tags, no word boundary, only word boundaries, empty, one-character sentences, a larger one for dictionary features, one mixing partially and fully annotated sentences), all eight solvers in turn, also with a dictionary that repeats words; x every (char window, char n-gram, type window, type n-gram) in 1..3 plus 8 configurations with sizes of 0 (window 0 of one or both kinds, n-gram size 0) (1..5 thorough) x 3 dictionary settings: (through the verification hook VERIF_LEARNED) every boundary of 7-10 texts is scored by the trained model exactly as the learned quantised bias plus the learned quantised weight of each feature a reference extractor written from the statement finds for that boundary; every stored n-gram vector has the length of its own window, dictionary vectors have word length + 1 entries and the words of a length bucket share (left, inside, right), weights are 16-bit, the model re-reads and is usable; since round 11 a tenth corpus whose first annotated boundary is a word boundary and, on the two large corpora with character n-gram features, the direction check: the trained model agrees with its own training annotation on more than half of the boundaries',
         'not_covered': [
             'the quantisation itself (f64 division, to_int_unchecked) and the pairing of a feature with ITS liblinear coefficient through the feature-id map: floating point + FFI, outside Verus; proved is WHERE a given (feature, quantised weight) pair is stored and that this is the slot the predictor reads',
             'Trainer::train as a whole is not under contract: the two blocks are extracted from it by anchors (block extraction); the statements around them (liblinear calls, loop over the hash map, Model::new call) are dropped',
@@ -157,7 +157,7 @@ PROPS = {
         'level': 'exploration',
         'units': [('contracts/K_kytea.vc', None, 'K_kytea')],
         'replay': 'c17',
-        'replay_scope': 'BOUNDED: (b) 300 (3000 thorough) seeded synthetic KyTea binaries written by an independent writer (1-3 windows, 1-4 length buckets, 0-8 dictionaries with membership masks, words longer than the bucket count; every 5th model with the invalid type letter 0x04 in type n-grams, every 4th with dictionary weights near the i16 limits, every 3rd with 1-3 tag slots: global tag lists and models, per-entry tag lists and models): converted n-grams / type codes / bias / windows / dictionary vectors equal what the file says, five texts are scored as the brute-force linear model over the file\'s weights dictates, every 7th truncation is rejected; (a) the shipped model (resources/kytea-model.bin, 1707 bytes): KyteaModel::read on every proper prefix of the 1699 bytes the reader consumes must return an error (no panic); the complete file must read and convert, the converted model must equal the recorded known answer (replay/golden/kytea_converted.bin), decode, keep one weight vector of its own window per n-gram with type codes 1..6, word length + 1 weights per dictionary word, re-read, be accepted by the predictor, segment the documented sentence as documented, and score four texts as the brute-force linear model over the decoded weights',
+        'replay_scope': 'BOUNDED: (b) 300 (3000 thorough) seeded synthetic KyTea binaries written by an independent writer (1-3 windows, 1-4 length buckets, 0-8 dictionaries with membership masks, words longer than the bucket count; every 5th model with the invalid type letter 0x04 in type n-grams, every 4th with dictionary weights near the i16 limits, every 3rd with 1-3 tag slots: global tag lists and models, per-entry tag lists and models): converted n-grams / type codes / bias / windows / dictionary vectors equal what the file says, five texts are scored as the brute-force linear model over the file\'s weights dictates, every 7th truncation is rejected; (a) the shipped model (resources/kytea-model.bin, 1707 bytes): KyteaModel::read on every proper prefix of the 1699 bytes the reader consumes must return an error (no panic); the complete file must read and convert, the converted model must equal the recorded known answer (replay/golden/kytea_converted.bin), decode, keep one weight vector of its own window per n-gram with type codes 1..6, word length + 1 weights per dictionary word, re-read, be accepted by the predictor, segment the documented sentence as documented, and score four texts as the brute-force linear model over the decoded weights; since round 11 the synthetic automata carry inherited outputs on non-entry states, as files written by KyTea do',
         'not_covered': [
             'of kytea_model.rs only three blocks of the conversion `TryFrom<KyteaModel> for Model` are under contract (unit K_kytea, block extraction: the per-item bodies of the three loops over dump_items()): the record built for one character n-gram (2w - n + 1 weights as the file assigns them), for one type n-gram (letters D/R/H/T/K/O mapped to codes 1..6, the invalid letter 0x04 skips the n-gram, any other letter rejects the model) and for one dictionary word (left / inside / right weights summed over the dictionaries whose membership bit is set, at the length bucket min(len, dict_n) - 1); their preconditions (n-gram fits the window, enough stored weights, 1..8 dictionaries, non-empty word) are facts about a well-formed file ASSUMED at the call site; the reader (generic BufRead stack, f64), the trie walk dump_items, and the code around the blocks (ok_or_else chains, Model::new call) are decided by the bounded sweep only',
             'the known answer for the shipped file is recorded from the pinned tree; it is a regression oracle for this file. The synthetic models have no subword dictionary and no feature lookup inside their tag models; their binary layout is what an independent writer derived from the reader',
